@@ -14,6 +14,7 @@
 package main
 
 import (
+	"errors"
 	"fmt"
 	"math"
 	"sort"
@@ -46,14 +47,14 @@ type stepCfg struct {
 func tables(min, max uint32) [][]band {
 	mid := min + (max-min)/2
 	return [][]band{
-		{{max, 10}},                          // single band: rejected (no band for 0)
-		{{0, 5}, {max, 10}},                  // two bands
-		{{max, 10}, {0, 5}},                  // the same, unsorted
-		{{0, 5}, {mid, 0}, {max, 16}},        // three bands, non-monotone chances
+		{{max, 10}},                   // single band: rejected (no band for 0)
+		{{0, 5}, {max, 10}},           // two bands
+		{{max, 10}, {0, 5}},           // the same, unsorted
+		{{0, 5}, {mid, 0}, {max, 16}}, // three bands, non-monotone chances
 		{{max, 24}, {0, 5}, {max - 1, 20}, {min, 0}, {mid, 16}}, // five bands, unsorted
-		{{0, 5}, {mid, 7}, {mid, 8}, {max, 9}}, // duplicate threshold: rejected unless caught
-		{{0, 5}, {max - 1, 9}},               // no band for max: rejected
-		{{0, 5}, {max, 9}, {max + 1, 11}},    // band above max: rejected
+		{{0, 5}, {mid, 7}, {mid, 8}, {max, 9}},                  // duplicate threshold: rejected unless caught
+		{{0, 5}, {max - 1, 9}},                                  // no band for max: rejected
+		{{0, 5}, {max, 9}, {max + 1, 11}},                       // band above max: rejected
 	}
 }
 
@@ -112,6 +113,18 @@ func refChance(bands []band, r uint32) uint32 {
 }
 
 type desc map[string]interface{}
+
+// rejectClass maps a validation error to its sentinel (for the evidence counters only).
+func rejectClass(err error) string {
+	for _, e := range []error{process.ErrNilMinChanceIfZero, process.ErrDuplicateThreshold, process.ErrNoChancesForMaxThreshold,
+		process.ErrOverflow, process.ErrIncreaseStepLowerThanOne, process.ErrDecreaseRatingsStepMoreThanMinusOne,
+		process.ErrStartRatingNotBetweenMinAndMax} {
+		if errors.Is(err, e) {
+			return e.Error()
+		}
+	}
+	return "other"
+}
 
 // checkRater evaluates the whole input alphabet on one accepted configuration.
 func checkRater(c *mc.Ctx, bsr *rating.BlockSigningRater, min, max uint32, bands []band,
@@ -249,10 +262,10 @@ func partA(c *mc.Ctx) {
 		}
 	}
 	var steps []stepCfg
-	rounds := []uint64{6000}
+	rounds := []uint64{6000, 3600000}
 	hours := []uint32{1, 72}
 	if !c.Quick() {
-		rounds = []uint64{6000, 100}
+		rounds = []uint64{6000, 100, 3600000}
 		hours = []uint32{1, 2, 72}
 	}
 	for _, h := range hours {
@@ -313,9 +326,11 @@ func partA(c *mc.Ctx) {
 			}
 			if err != nil {
 				c.Count("partA_configs_rejected_by_validation", 1)
+				c.Count("partA_rejected: "+rejectClass(err), 1)
 				continue
 			}
 			c.Count("partA_configs_accepted", 1)
+			c.Count(fmt.Sprintf("partA_accepted_with_max=%d", g.max), 1)
 			if c.WantSample() && si%97 == 5 && gi%13 == 3 {
 				c.Sample(cfg)
 			}
@@ -327,7 +342,7 @@ func partA(c *mc.Ctx) {
 func partB(c *mc.Ctx) {
 	incs := []int32{1, 2, 1000, math.MaxInt32}
 	decs := []int32{-1, -2, -1000, math.MinInt32}
-	pens := []float32{1, 1.0000001, 1.1, 2, 1000000, math.MaxFloat32}
+	pens := []float32{1, 1.01, 1.1, 2, 1000000, math.MaxFloat32}
 	type gen struct{ min, start, max uint32 }
 	gens := []gen{{1, 1, 1}, {1, 1, 10}, {5, 7, 10}, {1, 50, 100}, {5, 5000001, 10000000}, {1, math.MaxUint32, math.MaxUint32},
 		{math.MaxUint32 - 3, math.MaxUint32 - 1, math.MaxUint32}, {math.MaxInt32 - 1, math.MaxInt32, uint32(math.MaxInt32) + 2}}
@@ -380,8 +395,8 @@ func partB(c *mc.Ctx) {
 
 func main() {
 	mc.Main("C37", "exploration", func(c *mc.Ctx) {
-		c.Rule = "A: product min{1,5} x max{10,100,1e7,2^32-1} x start{min,mid,max-1,max} x 8 selection-chance tables (valid sorted/unsorted 2,3,5 bands; single band, duplicate threshold, missing/extra top band as rejected shapes) x hours{1,72[,2]} x proposer/validator decrease factor{-1,-4}^2 x penalty{1,1.1,2,1e6} x importance{1,2} x sizes{1/1,400/63} x round{6000[,100]}ms x metachain{same settings, main-net-like}; every config goes through NewRatingsData+NewBlockSigningRater, accepted ones are evaluated on shard{0,1,meta} x rating{min,min+1,mid,max-1,max, thresholds+-1} x streak{0..40[64],100,1000, and 1e6,2^31-1,2^32-1 when penalty>1 / 20000 when penalty==1}. " +
-			"B: raters over NewRatingStepData with steps inc{1,2,1000,MaxInt32} dec{-1,-2,-1000,MinInt32} penalty{1,1+1e-7,1.1,2,1e6,MaxFloat32} x 8 (min,start,max) triples incl. uint32 extremes. " +
+		c.Rule = "A: product min{1,5} x max{10,100,1e7,2^32-1} x start{min,mid,max-1,max} x 8 selection-chance tables (valid sorted/unsorted 2,3,5 bands; single band, duplicate threshold, missing/extra top band as rejected shapes) x hours{1,72[,2]} x proposer/validator decrease factor{-1,-4}^2 x penalty{1,1.1,2,1e6} x importance{1,2} x sizes{1/1,400/63} x round{6000,3600000[,100]}ms (the one-hour round makes small rating ranges pass the increase-step>=1 validation) x metachain{same settings, main-net-like}; every config goes through NewRatingsData+NewBlockSigningRater, accepted ones are evaluated on shard{0,1,meta} x rating{min,min+1,mid,max-1,max, thresholds+-1} x streak{0..40[64],100,1000, and 1e6,2^31-1,2^32-1 when penalty>1 / 20000 when penalty==1}. " +
+			"B: raters over NewRatingStepData with steps inc{1,2,1000,MaxInt32} dec{-1,-2,-1000,MinInt32} penalty{1,1.01,1.1,2,1e6,MaxFloat32} x 8 (min,start,max) triples incl. uint32 extremes. " +
 			"Non-trivial: an accepted config and input where the raw new value leaves [min,max] (clamping decides) or where the streak changes the result against streak 0."
 		c.Bound = "complete product of the stated alphabets"
 		c.Assumptions = []string{
